@@ -95,6 +95,12 @@ def corpus(bs):
         [("W", 1, 0, 8 * bs, 0x61), ("W", 0, 0, 3 * bs, 0x62), ("Z", 0, 24 * bs), ("F", 0, 3, 12), ("R", 0, 0, 24 * bs), ("R", 1, 0, 8 * bs)],
         [("W", 0, 0, 5 * bs + 7, 0x63), ("Z", 0, 40 * bs), ("F", 0, 6, 30), ("W", 0, 20 * bs, 10, 0x64), ("R", 0, 0, 40 * bs)],
         [("W", 0, 0, 30 * bs, 0x65), ("P", 0, 4, 9), ("F", 0, 2, 11), ("R", 0, 0, 30 * bs)],
+        # two adjacent uninitialized extents (preallocate, write, punch, preallocate again): a write into the last block of the
+        # first / the first block of the second must become an initialized block of its own
+        [("Z", 0, 10 * bs), ("F", 0, 0, 9), ("W", 0, 5 * bs, bs, 0x41), ("P", 0, 5, 5), ("F", 0, 5, 5), ("W", 0, 5 * bs, bs, 0x42), ("R", 0, 0, 10 * bs)],
+        [("Z", 0, 12 * bs), ("F", 0, 0, 11), ("W", 0, 6 * bs, bs, 0x43), ("P", 0, 6, 6), ("F", 0, 6, 6), ("W", 0, 7 * bs, bs, 0x44), ("R", 0, 0, 12 * bs),
+         ("W", 0, 6 * bs, 10, 0x45), ("R", 0, 0, 12 * bs)],
+        [("Z", 0, 20 * bs), ("F", 0, 2, 15), ("W", 0, 8 * bs, 2 * bs, 0x46), ("P", 0, 8, 9), ("F", 0, 8, 9), ("W", 0, 9 * bs, bs, 0x47), ("W", 0, 8 * bs, bs, 0x48), ("R", 0, 0, 20 * bs)],
         [("W", 0, 0, 30 * bs, 0x79), ("P", 0, 0, 20)], [("W", 0, 0, 30 * bs, 0x7A), ("P", 0, 12, 12)], [("W", 0, 0, 30 * bs, 0x7B), ("P", 0, 11, 12)],
     ]
 
